@@ -195,6 +195,10 @@ rep0_ctx_send(void *arg, nni_aio *aio)
 	}
 	if (!p->busy) {
 		p->busy = true;
+		if (p->id == s->ctx.pipe_id) {
+			// The socket's own reply would have to wait now.
+			nni_pollable_clear(&s->writable);
+		}
 		len     = nni_msg_len(msg);
 		nni_aio_set_msg(&p->aio_send, msg);
 		nni_pipe_send(p->pipe, &p->aio_send);
@@ -466,8 +470,12 @@ rep0_ctx_recv(void *arg, nni_aio *aio)
 		nni_pollable_clear(&s->readable);
 	}
 	nni_pipe_recv(p->pipe, &p->aio_recv);
-	if ((ctx == &s->ctx) && !p->busy) {
-		nni_pollable_raise(&s->writable);
+	if (ctx == &s->ctx) {
+		if (!p->busy) {
+			nni_pollable_raise(&s->writable);
+		} else {
+			nni_pollable_clear(&s->writable);
+		}
 	}
 
 	len = nni_msg_header_len(msg);
@@ -560,8 +568,12 @@ rep0_pipe_recv_cb(void *arg)
 	aio       = ctx->raio;
 	ctx->raio = NULL;
 	nni_aio_set_msg(&p->aio_recv, NULL);
-	if ((ctx == &s->ctx) && !p->busy) {
-		nni_pollable_raise(&s->writable);
+	if (ctx == &s->ctx) {
+		if (!p->busy) {
+			nni_pollable_raise(&s->writable);
+		} else {
+			nni_pollable_clear(&s->writable);
+		}
 	}
 
 	// schedule another receive
